@@ -266,6 +266,9 @@ def check_C02(tier, seed):
     for i, (be, sh) in enumerate(cfgs):
         exe = world_exe('channel', be, sh, 'rel')
         o.add(D.run_batch(exe, n if i == 0 else n // 4 if i < 5 else n // 10, tier, seed, label='channel@%s-%d%d%d' % (be, *sh), crash_prop='C12'))
+    # the acquire/release-checking configuration: a legal packet sequence (forged packets included) that makes the
+    # checker abort never reports its result, so an abort there is a C02 verdict
+    o.add(D.run_batch(world_exe('channel', 'chk', (4, 2, 4), 'rel'), n // 10, tier, seed, label='channel@chk-424', crash_prop='C02'))
     if tier == 'thorough' or os.environ.get('VERIF_HUGE'):
         # one packet with 2^32+11 bytes of associated data per run (tens of seconds to minutes each): the 12 one-shot,
         # SIV, ISAP and masked families
@@ -396,6 +399,9 @@ def check_C06(tier, seed):
     for i, (be, sh) in enumerate(cfgs):
         exe = world_exe('keystore', be, sh, 'rel')
         o.add(D.run_batch(exe, n if i == 0 else n // 6, tier, seed, label='keystore@%s' % be, crash_prop='C12'))
+    # acquire/release-checking configuration: every packet sequence on one pre-computed key (forged packets included)
+    # must leave the backend balanced; an abort of the checker there means the next packet has no output at all
+    o.add(D.run_batch(world_exe('keystore', 'chk', (4, 2, 4), 'rel'), n // 6, tier, seed, label='keystore@chk', crash_prop='C06'))
     o.extra['distinct_states_measure'] = 'visited (algorithm, operation, tamper kind, message/AD length class, object restored-from-saved) tuples'
     return o.finish()
 
